@@ -51,6 +51,11 @@ def make_ds(ctx, rng, d):
         df = df.drop(columns=["p"], errors="ignore")
     if d == 2:
         pagesize, version = 64, 2
+    if d == 3:
+        # directed: a partitioned dataset for AND groups that mix partition and ordinary conditions in either order
+        if "p" not in df.columns:
+            df["p"] = np.array([rng.randrange(0, 3) for _ in range(n)], dtype="int64")
+        layout, parts = "hive-part", ["p"]
     path = os.path.join(ctx.workdir("c13"), f"d{d}")
     shutil.rmtree(path, ignore_errors=True)
     if os.path.isfile(path):
@@ -118,6 +123,9 @@ def run(ctx, report):
             ctx.crumb(rec)
             try:
                 gap = d in (1, 2) and p < 4
+                mixed = d == 3 and p < 4 and "p" in desc["parts"]
+                if mixed:
+                    kind = "flat2"
                 if gap:
                     # directed: rows selected in the first and in later pages of a row group, none in the page(s) between
                     kind = "mask" if p % 2 == 0 else "or2"
@@ -136,6 +144,9 @@ def run(ctx, report):
                 else:
                     if kind.startswith("flat"):
                         filt = [rand_cond(rng, full, cols) for _ in range(int(kind[-1]))]
+                        if mixed:
+                            filt = [[("p", "==", 1), ("i", ">", 4)], [("i", ">", 4), ("p", "==", 1)],
+                                    [("p", "in", [0, 2]), ("flag", "==", 1), ("i", "<", 9)], [("i", "<", 8), ("p", "!=", 0), ("flag", "==", 0)]][p]
                         dnf = [filt]
                     else:
                         dnf = [[rand_cond(rng, full, cols) for _ in range(rng.choice([1, 2]))] for _ in range(int(kind[-1]))]
